@@ -179,6 +179,8 @@ def r4_literal_positions(chk, rule='C15.R4'):
         field = None
         if root == 'definition' and path and path[0] in TEXT_FIELDS:
             field = path[0]
+        elif root not in ('definition', 'mib', 'loop') and path and path[-1] in TEXT_FIELDS:
+            field = '%s.%s' % (root, path[-1])      # member of a loop item (a revision, ...)
         elif root == 'definition' and path[:3] == ('default', 'default', 'value'):
             field = 'default.value'
         if field is None:
@@ -294,5 +296,12 @@ def r12_borrowed_copy_has_the_requested_flavour(chk):
                  'not ask for texts', floor=1)
 
 
+
+def r13_quoted_text_ends_at_the_next_quote(chk):
+    """shared with C02.R13: a text ending in a backslash is a text like any other"""
+    from rules.C02 import r13_quoted_text_ends_at_the_next_quote as f
+    f(chk, rule='C15.R13')
+
+
 RULES = [r1_gated_stores, r2_switch_plumbing, r3_text_handlers, r4_literal_positions, r5_text_tokens_verbatim,
-         r6_text_field_provenance, r7_only_texts_are_gated, r8_reader_returns_the_text_as_stored, r10_revision_texts_all_kept, r9_text_reaches_the_lexer_as_given, r11_texts_not_html_escaped, r12_borrowed_copy_has_the_requested_flavour]
+         r6_text_field_provenance, r7_only_texts_are_gated, r8_reader_returns_the_text_as_stored, r10_revision_texts_all_kept, r9_text_reaches_the_lexer_as_given, r11_texts_not_html_escaped, r12_borrowed_copy_has_the_requested_flavour, r13_quoted_text_ends_at_the_next_quote]
